@@ -136,8 +136,8 @@ theorem releaseSelf_bound {s s' : State} {k : Nat} (hinv : GInv s [])
     simp only [hk] at h
     cases hct : st.claimedTwice with
     | true =>
-      simp only [hct, if_true, Option.some.injEq] at h
-      subst h; rfl
+      simp only [hct, if_true] at h
+      exact (handback_frame h).2.2
     | false =>
       simp only [hct, Bool.false_eq_true, if_false] at h
       have hg0 : GInv { s with sync := upd s.sync k none } [] := GInv.congr (s := s) rfl rfl rfl hinv
